@@ -83,6 +83,7 @@ ALPHABETS = {
     'AC': 'AC',
     'ACG': 'ACG',
     'ACTG': 'ACTG',
+    'AGC': 'AGC',
 }
 _ENC = {}
 
@@ -634,8 +635,24 @@ def check_case(res, st, alpha_name, rows, w, rep, only_unit=None, part='B'):
     st.trim()
 
 
+# Two alphabets of the same size used in ONE process, in both orders (even/odd shards): anything the library builds
+# lazily per (alphabet size, k) - label tables, lookup tables - must not leak from one alphabet to the other.
+TWINS = [('ACGT', 'ACTG'), ('ACG', 'AGC')]
+
+
+def run_twins(res, shard_index):
+    for a, b in TWINS:
+        order = (a, b) if shard_index % 2 == 0 else (b, a)
+        for name in order + order[:1]:
+            alpha = ALPHABETS[name]
+            rows = [alpha + alpha[0], alpha[-1] * 2 + alpha[1]]
+            for w in (1, 2):
+                check_case(res, ShardState(), name, rows, w, 'fresh', part='A')
+
+
 def run_shard(desc, deadline):
     res = Result()
+    run_twins(res, desc.get('shard', 0))
     for sub in desc['subs']:
         st = ShardState()
         for n, (rows, rep) in enumerate(cases_of_shard(sub)):
